@@ -105,7 +105,7 @@ pub fn generate(out: &mut Out, tier: &str, seed: u64) {
     let thorough = tier == "thorough";
     let ctx = Ctx::new();
     let mut rng = Rng::new(seed ^ 0xC03);
-    let n = if thorough { 12000 } else { 700 };
+    let n = if thorough { 100000 } else { 700 };
     for i in 0..n {
         let cfg = GenCfg { max_ops: if i % 4 == 0 { 40 } else { 14 }, removals: 5, invalid: 15, values: false };
         let ops = gen_history(&mut rng, &cfg);
